@@ -406,6 +406,20 @@ Fixpoint suffixb (suf s : str) : bool :=
 Definition c17_label_sb (path : str) (v : value) : bool :=
   suffixb (s_colons ++ value_to_string v) path.
 
+(** Type labels (C17): the label names the type — label and [type_name] agree once
+    every [ident::] qualifier is deleted from both — ... *)
+Definition c17_type_label_sb (raw label : str) : bool := str_eqb (unqualify label) (unqualify raw).
+
+(** ... and within one benchmark two instantiations share a label only if their
+    type names agree up to qualifiers ([(raw, label)] pairs of one function). *)
+Fixpoint c17_types_distinct_sb (l : list (str * str)) : bool :=
+  match l with
+  | [] => true
+  | (raw, label) :: tl =>
+      forallb (fun x => negb (str_eqb (snd x) label) || str_eqb (unqualify (fst x)) (unqualify raw)) tl
+      && c17_types_distinct_sb tl
+  end.
+
 (** Every argument list was evaluated exactly once. *)
 Definition c17_once_sb (counts : list N) : bool := forallb (N.eqb 1) counts.
 
